@@ -90,8 +90,19 @@ let show_value (v : value) : string =
 let show_status = function
   | Done _ -> "ok" | Insufficient -> "err:insufficient" | Failed -> "err:other" | Panicked -> "panic" | Fuel -> "fuel"
 
+(* number of evaluations of the builder's fee estimate (private min_fee, hook H5) the model's run stands for: one for
+   the target (TransactionBuilder::min_fee), and per fee_for_input one for the builder as it is and - unless that failed
+   or add_regular_input refuses the address - one for the builder with the input *)
+let fee_evaluations = ref 0
 let observe (c : parsed) (v : variant) : string * sel_state * unit outcome =
-  let (st, r) = add_inputs_from (mf_of c) (ffi_of c) v c.strat c.choices c.offered c.sc in
+  fee_evaluations := 0;
+  let mf m = (incr fee_evaluations; mf_of c m) in
+  let ffi m u =
+    (match mf_of c m with
+     | Ok _ when u.u_ok -> fee_evaluations := !fee_evaluations + 2
+     | _ -> incr fee_evaluations);
+    ffi_of c m u in
+  let (st, r) = add_inputs_from mf ffi v c.strat c.choices c.offered c.sc in
   (show_status r ^ " " ^ String.concat " " (ids_of st.st_inputs), st, r)
 
 (* flags (evidence only, stripped before the comparison): +s / +d / +p when the code before the repair of the swap
@@ -109,6 +120,7 @@ let flags (c : parsed) (cur : string) : string =
 
 let model_line ?(with_flags = false) (c : parsed) : string =
   let (o, st, r) = observe c current in
+  let k = !fee_evaluations in
   let idl = ids_of st.st_inputs in
   let x = (match explicit_input st with Ok v -> show_value v | _ -> "err") in
   let f = (match r with
@@ -124,7 +136,7 @@ let model_line ?(with_flags = false) (c : parsed) : string =
       | _ -> "-") in
   show_status r ^ (if with_flags then flags c o else "")
   ^ " I " ^ string_of_int (List.length idl) ^ String.concat "" (List.map (fun s -> " " ^ s) idl)
-  ^ " X " ^ x ^ " F " ^ f ^ " G " ^ g
+  ^ " X " ^ x ^ " F " ^ f ^ " G " ^ g ^ " K " ^ string_of_int k
 
 (* the implementation's line: <status> I <n> ids… X <value|err> F <fee|err|-> G <outpoint fee | -> *)
 let verdict_of (c : parsed) (impl : string list) : string =
@@ -145,7 +157,7 @@ let verdict_of (c : parsed) (impl : string list) : string =
        (match rest3 with
         | "F" :: fee :: "G" :: gtoks when fee <> "err" && fee <> "-" ->
           let prefix = (match gtoks with
-              | [xo; gf] when gf <> "err" -> Some (n_of_string xo, n_of_string gf)
+              | xo :: gf :: "K" :: _ when gf <> "err" -> Some (n_of_string xo, n_of_string gf)
               | _ -> None) in
           (match judge c.strat c.offered c.sc (List.map n_of_string idl) explicit (n_of_string fee) prefix with
            | Holds -> "holds"
